@@ -297,10 +297,17 @@ def r5_2(model, rep, sa, n):
     Y = varset(ev, "target_outcomes")
     rets = return_paths(ev.run(f, {"graph": g, "target_interventions": X, "target_outcomes": Y}))
     problems = []
-    if len(rets) != 1 or rets[0].value[0] != "all":
+    from .common import quantifier_of
+    from ..symeval import bool_paths
+    qv = rets[0].value if len(rets) == 1 else quantifier_of(bool_paths(rets))
+    if qv is None or qv[0] != "all":
         problems.append("the separation must hold for ALL pairs (transport node, outcome)")
     else:
-        c = rets[0].value[1]
+        c = qv[1]
+        body = c[2]
+        while body[0] == "truth":
+            body = body[1]
+        c = (c[0], c[1], body, c[3])
         gens = c[3]
         tn = [gq for gq in gens if gq[1][0] == "call" and str(gq[1][1]).endswith("get_transport_nodes")]
         yo = [gq for gq in gens if sa.strip(gq[1]) == Y]
